@@ -494,7 +494,12 @@ def run_process(ctx, spec):
                 else:
                     want_rc = rng.choice([0, 0, 3])
                     planf = os.path.join(d, 'plan.json')
-                    json.dump({'report': os.path.join(d, 'rep.json'), 'stderr_chunks': [[data.hex(), 0]], 'exit': want_rc}, open(planf, 'w'))
+                    plan2 = {'report': os.path.join(d, 'rep.json'), 'stderr_chunks': [[data.hex(), 0]], 'exit': want_rc}
+                    if rng.random() < 0.2:
+                        plan2.update({'close_stderr': True, 'linger_ms': rng.choice([1200, 1500])})      # the program lets go of its stderr and lives on for a while
+                        ctx.count('run_mode_children_closing_stderr_early')
+                    with open(planf, 'w') as pf:
+                        json.dump(plan2, pf)
                     e2['VERIF_CHILD_PLAN'] = planf
                     r = subprocess.run(main + ['-r', '/venv/bin/python', os.path.join(helpers, 'child.py')], input=b'quit\n', stdout=subprocess.PIPE, stderr=subprocess.PIPE, timeout=180, env=e2)
             except Blocked as e:
